@@ -645,6 +645,47 @@ impl<'a> VisitMut for WrapPass<'a> {
 }
 
 // ---------------------------------------------------------------------------------------------
+// R15 (constructor used as a function value): `f(.., Enum::Variant, ..)` -> `f(.., |__vx_e: T| -> (o: R) ensures o ==
+// Enum::Variant(__vx_e) { Enum::Variant(__vx_e) }, ..)` for the constructor paths named in the contract file (eta expansion).
+struct EtaSpec { path: String, ty: String, ret: String, used: u64 }
+struct EtaPass<'a> { rules: &'a mut Rules, specs: &'a mut Vec<EtaSpec> }
+impl<'a> EtaPass<'a> {
+    fn expand(&mut self, e: &mut Expr) {
+        if let Expr::Path(p) = e {
+            let en = norm(&p.to_token_stream().to_string());
+            for sp in self.specs.iter_mut() {
+                if norm(&sp.path) == en {
+                    let path: TokenStream = sp.path.parse().unwrap_or_default();
+                    let ty: TokenStream = sp.ty.parse().unwrap_or_default();
+                    let ret: TokenStream = sp.ret.parse().unwrap_or_default();
+                    sp.used += 1;
+                    self.rules.hit("R15.constructor_eta_expanded");
+                    *e = Expr::Verbatim(quote!(|__vx_e: #ty| -> (__vx_o: #ret) ensures __vx_o == #path(__vx_e), { #path(__vx_e) }));
+                    return;
+                }
+            }
+        }
+    }
+}
+impl<'a> VisitMut for EtaPass<'a> {
+    fn visit_expr_mut(&mut self, e: &mut Expr) {
+        match e {
+            Expr::Call(c) => {
+                // the callee position is a plain constructor call, not a function value
+                if !matches!(&*c.func, Expr::Path(_)) { self.visit_expr_mut(&mut c.func); }
+                for a in c.args.iter_mut() { self.expand(a); self.visit_expr_mut(a); }
+            }
+            Expr::MethodCall(m) => {
+                self.visit_expr_mut(&mut m.receiver);
+                for a in m.args.iter_mut() { self.expand(a); self.visit_expr_mut(a); }
+            }
+            _ => visit_mut::visit_expr_mut(self, e),
+        }
+    }
+    fn visit_item_mut(&mut self, _i: &mut Item) {}
+}
+
+// ---------------------------------------------------------------------------------------------
 // R7 (method chains): `RECV.m1(A..).m2(B..)` -> `wrapper(RECV | &mut RECV, A.., B..)` for chains named
 // in the contract file; the wrapper in the prelude has the original chain as its body.
 
@@ -674,12 +715,16 @@ impl<'a> VisitMut for ChainPass<'a> {
             let mut args: Vec<Expr> = vec![];
             for a in args_rev.into_iter().rev() { args.extend(a); }
             let w = Ident::new(&sp.wrapper, Span::call_site());
-            let new: Expr = match sp.recv_mode.as_str() {
-                "mut" => parse_quote!(#w(&mut #recv #(, #args)*)),
-                "ref" => parse_quote!(#w(& #recv #(, #args)*)),
-                "unit" => parse_quote!(#w()),
-                _ => parse_quote!(#w(#recv #(, #args)*)),
-            };
+            // built structurally (not re-parsed): arguments may already hold Verus-syntax closures
+            let mut call: ExprCall = parse_quote!(#w());
+            match sp.recv_mode.as_str() {
+                "mut" => call.args.push(parse_quote!(&mut #recv)),
+                "ref" => call.args.push(parse_quote!(& #recv)),
+                "unit" => {}
+                _ => call.args.push(recv),
+            }
+            if sp.recv_mode != "unit" { for a in args { call.args.push(a); } }
+            let new: Expr = Expr::Call(call);
             sp.used += 1;
             self.rules.hit("R7.method_chain_to_wrapper");
             *e = new;
@@ -1089,6 +1134,13 @@ fn process_fn(
     };
     let into_iter: Vec<u64> = spec.get("for_into_iter").and_then(|v| v.as_array()).map(|a| a.iter().filter_map(|x| x.as_u64()).collect()).unwrap_or_default();
     ForPass { rules, which, into_iter }.visit_block_mut(block);
+    // R15 constructor function values
+    let mut etas: Vec<EtaSpec> = vec![];
+    if let Some(Value::Array(a)) = spec.get("etas") {
+        for v in a { etas.push(EtaSpec { path: get_str(v, "path").unwrap_or_default(), ty: get_str(v, "ty").unwrap_or_default(), ret: get_str(v, "ret").unwrap_or_default(), used: 0 }); }
+    }
+    EtaPass { rules, specs: &mut etas }.visit_block_mut(block);
+    for c in &etas { if c.used == 0 { errors.push(format!("{}: lost anchor: constructor value {} not found", path, c.path)); } }
     // R7 chains
     let mut chains: Vec<ChainSpec> = vec![];
     if let Some(Value::Array(a)) = spec.get("adapts") {
